@@ -8,6 +8,7 @@ use std::panic::{catch_unwind, AssertUnwindSafe};
 
 thread_local! {
     pub static LAST_PANIC: RefCell<String> = RefCell::new(String::new());
+    pub static SIDE: RefCell<String> = RefCell::new(String::new());
 }
 
 pub fn run_case(case: &[u8]) -> String {
@@ -82,14 +83,19 @@ pub fn run_case(case: &[u8]) -> String {
         Ok(r) => r.unwrap_or_else(|_| "BADCASE".to_string()),
         Err(_) => "PANIC".to_string(),
     };
+    let mut side = SIDE.with(|s| std::mem::take(&mut *s.borrow_mut()));
     LAST_PANIC.with(|p| {
         let mut p = p.borrow_mut();
         if !p.is_empty() {
-            out.push_str("\t#panic=");
-            out.push_str(&p.replace('\n', " "));
+            side.push_str("panic=");
+            side.push_str(&p.replace('\n', " "));
             p.clear();
         }
     });
+    if !side.is_empty() {
+        out.push_str("\t#");
+        out.push_str(&side);
+    }
     out
 }
 
